@@ -669,7 +669,7 @@ func (rn *runner[G, S]) runHistory(p histParams) *histCase[G, S] {
 							"C06_mixed_epochs (shares of different epochs do not combine)")
 					}
 				}
-				if rn.sign != nil && t == 0 && (rn.a.Tier == "thorough" || !mixedSigned) {
+				if rn.sign != nil && t == 0 && !mixedSigned {
 					mixedSigned = true
 					ms := map[uint64]*mpc.BaseShard[G, S]{}
 					for _, x := range a {
@@ -717,7 +717,7 @@ func (rn *runner[G, S]) runHistory(p histParams) *histCase[G, S] {
 		cur = next
 		hc.steps = step
 		// ---- a threshold signature with the shards of this epoch must verify under the ORIGINAL key
-		if rn.sign != nil && (step == length || rn.a.Tier == "thorough") {
+		if rn.sign != nil && step == length {
 			if sall, smin := cur.qualifiedSets(0); len(sall) > 0 {
 				rs := vh.NewRng(rn.a.Seed, prop, "sign/"+c.name, p.idx*1000+step) // own stream: the history does not depend on the tier
 				sq := vh.Pick(rs, sall)
@@ -731,8 +731,8 @@ func (rn *runner[G, S]) runHistory(p histParams) *histCase[G, S] {
 				}
 				rn.res.Distribution["lindell22 signatures with post-epoch shards"]++
 				// DKLs23 (threshold ECDSA, OT-based multiplication is slow): one history in the quick tier,
-				// every 4th in the thorough tier, with a minimal quorum when there is one
-				if step == length && ((rn.a.Tier == "thorough" && p.idx%4 == 0) || p.idx == 0) {
+				// every 8th in the thorough tier, with a minimal quorum when there is one
+				if (rn.a.Tier == "thorough" && p.idx%8 == 0) || p.idx == 0 {
 					if len(smin) > 0 {
 						sq = smin[0]
 						for _, cand := range smin {
